@@ -1,4 +1,5 @@
 import EvalFilter.Proofs.OptSim6b
+import EvalFilter.Proofs.OptSim4b
 set_option linter.unusedSimpArgs false
 set_option linter.unusedVariables false
 namespace EvalFilter.OptSim
@@ -90,5 +91,59 @@ theorem atStage_refines (M : Machine) (obj : HostVal) (S : Bytes → Nat → Byt
     ∀ t, Refines (atStage M S 0) (atStage M S (t + 1)) obj
   | 0 => atStage_step M obj S hnd hS 0
   | t + 1 => (atStage_refines M obj S hnd hS t).trans (atStage_step M obj S hnd hS (t + 1))
+
+/-! ### the converse direction -/
+
+/-- every run of `M'` that ends is matched by a run of `M` that ends with the same result, output and
+    variables -/
+def RefinedBy (M M' : Machine) (obj : HostVal) : Prop :=
+  ∀ f' st st', StEq false st st' → (run M' obj f' st').1 ≠ .error .outOfFuel →
+    ∃ f, OutEq false (run M obj f st) (run M' obj f' st')
+
+theorem RefinedBy.trans {A B C : Machine} {obj : HostVal} (h : RefinedBy A B obj) (h' : RefinedBy B C obj) : RefinedBy A C obj := by
+  intro f' st st' hst hno
+  obtain ⟨f1, h1⟩ := h' f' st' st' (StEq.refl _ _) hno
+  have hno1 : (run B obj f1 st').1 ≠ .error .outOfFuel := by rw [h1.1]; exact hno
+  obtain ⟨f2, h2⟩ := h f1 st st' hst hno1
+  exact ⟨f2, h2.trans h1⟩
+
+theorem run_refinedBy {M M' : Machine} {obj : HostVal} (hM : MRel (BRel M M' obj) M M')
+    (hmain : BRel M M' obj M.main M'.main) (hnd : NeverDone M) : RefinedBy M M' obj := by
+  intro f' st st' hst hno
+  obtain ⟨R, hB⟩ := hmain
+  unfold run at hno ⊢
+  have he := hB.empty
+  by_cases hemp : M.main.isEmpty = true
+  · refine ⟨0, ?_⟩
+    simp only [hemp, he, ↓reduceIte]
+    exact ⟨rfl, hst⟩
+  · simp only [hemp, he, Bool.false_eq_true, ↓reduceIte] at hno ⊢
+    have hno' : (loop M' obj M'.main f' 0 [] st').1 ≠ .error .outOfFuel := hno
+    obtain ⟨f, h1, h2⟩ := sim_back hM hnd f' M.main M'.main R hB _ 0 0 rfl hB.start [] st st' hst hno'
+    refine ⟨f, h1, ?_⟩
+    simp only [finish, hst.1]
+    exact ⟨by rw [h2.1], h2.2.1, h2.2.2.1, h2.2.2.2⟩
+
+theorem atStage_step_back (M : Machine) (obj : HostVal) (S : Bytes → Nat → Bytes) (hnd : NeverDone M)
+    (hS : ∀ b, (b = M.main ∨ ∃ u, u ∈ M.funcs ∧ u.code = b) → ∀ t, Step1 (S b t) (S b (t + 1))) (t : Nat) :
+    RefinedBy (atStage M S t) (atStage M S (t + 1)) obj := by
+  have hnd1 : NeverDone (atStage M S t) := hnd
+  have hnd2 : NeverDone (atStage M S (t + 1)) := hnd
+  apply run_refinedBy _ ((hS M.main (Or.inl rfl) t).brel hnd1 hnd2) hnd1
+  refine ⟨rfl, rfl, rfl, ?_⟩
+  intro name
+  rw [lookupUser_atStage, lookupUser_atStage]
+  cases h : lookupUser M name with
+  | none => exact Or.inl ⟨rfl, rfl⟩
+  | some u =>
+    have hs := hS u.code (Or.inr ⟨u, lookupUser_mem' h, rfl⟩) t
+    obtain ⟨R, hB⟩ := hs.brel (M := atStage M S t) (M' := atStage M S (t + 1)) (obj := obj) hnd1 hnd2
+    exact Or.inr ⟨_, _, rfl, rfl, rfl, ⟨R, hB⟩, hB.empty⟩
+
+theorem atStage_refinedBy (M : Machine) (obj : HostVal) (S : Bytes → Nat → Bytes) (hnd : NeverDone M)
+    (hS : ∀ b, (b = M.main ∨ ∃ u, u ∈ M.funcs ∧ u.code = b) → ∀ t, Step1 (S b t) (S b (t + 1))) :
+    ∀ t, RefinedBy (atStage M S 0) (atStage M S (t + 1)) obj
+  | 0 => atStage_step_back M obj S hnd hS 0
+  | t + 1 => (atStage_refinedBy M obj S hnd hS t).trans (atStage_step_back M obj S hnd hS (t + 1))
 
 end EvalFilter.OptSim
